@@ -312,6 +312,21 @@ func checkC14Tok(c c14TokCase) *evid.Fail {
 				res = evid.F("token-stream:parser-value", "the expression parser compiles the literal %q to %s, it encodes %q", enc, exprTokensRepr(rt), c.S)
 				return
 			}
+			// the other quote character of the expression language writes a name: one variable named by the string,
+			// whatever the string spells (an empty name is no name)
+			if strings.Trim(c.S, " \t\r\n") != "" || c.S == "" {
+				encName := st.EncodeString(c.S, '"')
+				perr := p.ParseString(encName)
+				if c.S == "" {
+					if perr == nil {
+						res = evid.F("token-stream:parser-accepts-empty-name", "the expression parser accepts the empty quoted name %q", encName)
+						return
+					}
+				} else if rn := p.ResultTokens(); perr != nil || len(rn) != 1 || rn[0].Type() != cparsers.Variable || rn[0].Value() == nil || rn[0].Value().AsString() != c.S {
+					res = evid.F("token-stream:parser-name", "the expression parser compiles the quoted name %q (%v) to %s, it names %q", encName, perr, exprTokensRepr(rn), c.S)
+					return
+				}
+			}
 		}
 		if hits != 1 {
 			res = evid.F("token-stream:not-one-token:"+c.Tok, "%s tokenizer (quotes %q, separators %q, setup %v): the encoded form of %q inside %q arrived as %d quoted tokens: %v", c.Tok, string(c.Quotes), string(c.Seps), c.Setup, c.S, text, hits, all)
